@@ -506,6 +506,27 @@ func vfRunC16Case(env *vfEnv, part *vfPart, caseNo int) {
 					if last != nil && !describes {
 						sig = "re-locked-or-updated-hold"
 					}
+					if last != nil && describes && img.Live != nil {
+						// the image agrees with the running instance and only the replay of the uncompacted input files
+						// differs: that is the loader's handling of update records (the C07 side of the open finding),
+						// not something the compaction lost
+						var ih, lh *vfSnapHold
+						if ik := snap.find(d.Db, d.Key); ik != nil {
+							ih = ik.hold(d.LockId)
+						}
+						if lk := img.Live.find(d.Db, d.Key); lk != nil {
+							lh = lk.hold(d.LockId)
+						}
+						if ih != nil && lh != nil && ih.Depth == lh.Depth && ih.Count == lh.Count && ih.Rcount == lh.Rcount {
+							tol := vfDeadlineTolerance(lh.EFlag) + 1
+							unlL := lh.EFlag&protocol.EXPRIED_FLAG_UNLIMITED_EXPRIED_TIME != 0
+							unlI := ih.EFlag&protocol.EXPRIED_FLAG_UNLIMITED_EXPRIED_TIME != 0
+							if unlL == unlI && (unlL || (ih.Deadline-lh.Deadline <= tol && lh.Deadline-ih.Deadline <= tol)) {
+								sig = "re-locked-or-updated-hold"
+								stats["image_agrees_with_the_running_instance"]++
+							}
+						}
+					}
 					if last != nil && describes {
 						stats["update_record_describes_the_live_hold"]++
 					}
